@@ -68,6 +68,12 @@ class TreeCase:
         self.nfun = ch.int(1, 2, "t.nfun")
         self.funs = []
         for f in range(self.nfun):
+            if ch.chance(0.2, f"t.{f}.chain"):
+                # exclusion chain: an unsatisfiable leaf whose unsat core needs 20-45 conditions (solvers wrap long cores over lines)
+                self.funs.append((f"check_t{f}(uint256,uint256,uint256)",
+                                  ("chain", ch.choose([22, 30, 45], f"t.{f}.n"), ch.pick(3, f"t.{f}.arg"), ch.chance(0.5, f"t.{f}.sq"),
+                                   ch.chance(0.5, f"t.{f}.order"))))
+                continue
             depth = ch.int(3, 4, f"t.{f}.depth")
             self.funs.append((f"check_t{f}(uint256,uint256,uint256)", self._node(depth, f"t.{f}")))
 
@@ -81,7 +87,39 @@ class TreeCase:
             return ("assume", p, self._node(depth - 1, lbl + "A"))
         return ("node", p, self._node(depth - 1, lbl + "T"), self._node(depth - 1, lbl + "F"))
 
+    def emit_chain(self, a, node):
+        _, n, i, sq, feasible_first = node
+        out = a.fresh("out")
+        for k in range(2, n + 2):
+            _arg(a, i); a.push(k).op("EQ").jumpi(out)
+        _arg(a, i); a.push(n + 1).op("LT").jumpi(out)  # n+1 < x
+        # here x is 0 or 1
+
+        def val():
+            _arg(a, i)
+            if sq:
+                a.op("DUP1").op("MUL")
+
+        def infeasible():
+            nxt = a.fresh("nxt")
+            val(); a.push(1).op("LT").op("ISZERO").jumpi(nxt)  # 1 < v: needs every exclusion above
+            A.emit_panic(a, 1)
+            a.label(nxt)
+
+        def feasible():
+            nxt = a.fresh("nxt")
+            val(); a.push(1).op("EQ").op("ISZERO").jumpi(nxt)
+            A.emit_panic(a, 1)
+            a.label(nxt)
+
+        for part in ((feasible, infeasible) if feasible_first else (infeasible, feasible)):
+            part()
+        a.label(out)
+        a.op("STOP")
+
     def emit(self, a, node):
+        if node[0] == "chain":
+            return self.emit_chain(a, node)
         if node[0] == "leaf":
             k = node[1]
             if k == "panic":
@@ -119,6 +157,8 @@ class TreeCase:
 
     def describe(self):
         def d(n):
+            if n[0] == "chain":
+                return {"chain": list(n[1:])}
             if n[0] == "assume":
                 return {"assume " + POOL[n[1]][0]: d(n[2])}
             return n[1] if n[0] == "leaf" else {POOL[n[1]][0]: [d(n[2]), d(n[3])]}
